@@ -54,9 +54,24 @@ PROPS = {
 BEHAVIOURAL = {p for p, s in PROPS.items() if s.get('roots') == 'anchors'}
 
 
+# Assume / guarantee between properties.  The schemas of the OBSERVER properties (iterators, equality, set
+# algebra, clone, formatting, serialisation) are judged on an entry state in which every container satisfies the
+# invariant (live prefix [0,len), len <= N, keys pairwise unequal).  That entry state is what the MUTATING roots
+# guarantee at their exits.  Where one of them is REFUTED to leave a container in a state that breaks the
+# invariant -- on a normal return, or on a path that unwinds -- what the observers conclude is void: "every
+# stored entry exactly once" is false for a map with a hole below len or with a key stored twice.  So the
+# observers' checks also interpret the mutating roots and count a refuted invariant rule there as their own.
+OBSERVERS = {'C08', 'C09', 'C10', 'C14', 'C15', 'C19', 'C20'}
+MUTATOR_PROPS = {'C01', 'C07', 'C11', 'C12', 'C16', 'C18'}
+DEP_RULES = ('INV', 'ESC-own', 'ESC-user', 'APPEND-AFTER-MISS')
+
+
 def props_of(v):
     """properties a rule violation is evidence against"""
     s = _props_of(v)
+    if v['rule'] in DEP_RULES and (v.get('status') == 'refuted' or v['rule'] == 'APPEND-AFTER-MISS') \
+            and (set(v.get('root_props') or ()) & MUTATOR_PROPS):
+        s = set(s) | OBSERVERS
     # C18: within their contract the unsafe entry points uphold every other guarantee, so every safety
     # rule that fails inside one of them is (also) evidence against C18
     if 'C18' in (v.get('root_props') or ()) and v['rule'] in UNSAFE_ROOT_RULES:
@@ -246,7 +261,7 @@ def e2_collect(pid, facts, merged):
             if pid in props_of(v):
                 vs.append(v)
         for rule, n in m['n_oblig'].items():
-            if pid in RULE_PROPS.get(rule, ()):
+            if pid in RULE_PROPS.get(rule, ()) or (pid in OBSERVERS and rule in DEP_RULES):
                 ob += n
                 dis += m['n_ok'].get(rule, 0)
         ob += m['n_oblig_p'].get(pid, 0)
@@ -324,7 +339,9 @@ def run_check(pid, tier, seed, only_key=None):
             from . import specs
 
             def select(body, _pid=pid):
-                return _pid in specs.props_of_root(body)
+                rp = specs.props_of_root(body)
+                # (observer properties rest on the invariant the mutating roots guarantee: interpreted as well)
+                return _pid in rp or (_pid in OBSERVERS and bool(rp & MUTATOR_PROPS))
         facts, merged = cli.gather(cfgs, select=select)
     else:
         # graph-only properties: no interpreter run needed
